@@ -42,6 +42,9 @@ func c17Tokens() []c17Tok {
 		{Text: "// TODO (amy) msg3", Kind: "line", Expect: "req", Assignee: "amy", Message: "msg3"},
 		{Text: "# fixme(zed) later", Kind: "hash", Expect: "req", Assignee: "zed", Message: "later"},
 		{Text: "/* FIXME(al): m1\n * m2 */", Kind: "block", Expect: "req", Assignee: "al", Message: "m1 m2"},
+		// a colon directly after the marker AND a parenthesised assignee after that colon
+		{Text: "// TODO: (cy) msg4", Kind: "line", Expect: "req", Assignee: "cy", Message: "msg4"},
+		{Text: "# FIXME: (di): msg5", Kind: "hash", Expect: "req", Assignee: "di", Message: "msg5"},
 		{Text: "// TODOS plural", Kind: "line", Expect: "opt"},
 		{Text: "// see TODO later", Kind: "line"},
 		{Text: "// é TODO after non-ascii", Kind: "line"},
